@@ -141,8 +141,8 @@ struct SizeOpTable {
     kCount
   };
 
-  // 40 elements for each combination.
-  SizeOp array[(uint32_t(RegType::kVec128) - uint32_t(RegType::kVec8) + 1) * 8];
+  // 40 elements for each combination + 8 invalid elements that every other register type is clamped to.
+  SizeOp array[(uint32_t(RegType::kVec128) - uint32_t(RegType::kVec8) + 2) * 8];
 };
 
 #define VALUE_BIN(x) { \
@@ -168,8 +168,8 @@ struct SizeOpTable {
 }
 
 static const SizeOpTable size_op_table[SizeOpTable::kCount] = {
-  {{ ASMJIT_LOOKUP_TABLE_40(VALUE_BIN, 0) }},
-  {{ ASMJIT_LOOKUP_TABLE_40(VALUE_ANY, 0) }}
+  {{ ASMJIT_LOOKUP_TABLE_40(VALUE_BIN, 0), ASMJIT_LOOKUP_TABLE_8(VALUE_BIN, 40) }},
+  {{ ASMJIT_LOOKUP_TABLE_40(VALUE_ANY, 0), ASMJIT_LOOKUP_TABLE_8(VALUE_ANY, 40) }}
 };
 
 #undef VALUE_ANY
